@@ -106,33 +106,33 @@ Qed.
 Lemma gen_machine_ok : machine_ok gen_machine = true.
 Proof. vm_compute. reflexivity. Qed.
 
-Definition built (a : list byte) : Prop := exists name cargs calls next, run_chain gen_machine name cargs calls = Some (a, next).
+Definition built (m : machine) (a : list byte) : Prop := exists name cargs calls next, run_chain m name cargs calls = Some (a, next).
 
 (* ... hence for sessions whose commands all come out of builder chains -- any constructors, methods, numbers, keywords
    and text arguments the types admit -- nothing needs to be assumed about the arguments *)
-Lemma built_session_lemma : forall ops t c' started outs,
+Lemma built_session_lemma : forall m, machine_ok m = true -> forall ops t c' started outs,
   session ops (client_init t) = (c', started, outs) ->
   N.of_nat (length ops) <= 10000 ->
-  Forall built (map fst ops) ->
+  Forall (built m) (map fst ops) ->
   exists issued,
     io_wire (c_io c') ++ c_wbuf c' = io_wire t ++ List.concat (map line issued) /\
     sub issued (issue 0 (map fst ops)) /\
     NoDup (map fst issued) /\
     Forall (fun p => exists body, line p = body ++ [13; 10] /\ ~ In 13 body /\ ~ In 10 body) issued.
 Proof.
-  intros ops t c' started outs H Hlen Hb. eapply session_commands_lemma; eauto.
+  intros m Hm ops t c' started outs H Hlen Hb. eapply session_commands_lemma; eauto.
   eapply Forall_impl; [|exact Hb]. intros a (name & cargs & calls & next & Hr).
-  exact (chain_single_line_lemma gen_machine gen_machine_ok _ _ _ _ _ Hr).
+  exact (chain_single_line_lemma m Hm _ _ _ _ _ Hr).
 Qed.
 
 Local Open Scope string_scope.
 Local Open Scope list_scope.
-(* non-vacuity: LOGIN with a quote and a backslash in the password, then UID FETCH 2:4,7 (FLAGS UID) (CHANGEDSINCE 9),
+(* non-vacuity (on the reference tables, which C14 shows equal to the regenerated ones): LOGIN with a quote and a backslash in the password, then UID FETCH 2:4,7 (FLAGS UID) (CHANGEDSINCE 9),
    over a transport that takes 3 bytes, then is not ready, then takes the rest piecemeal; the first stream is dropped
    after two polls (its command still partly buffered), the second finishes the job *)
 Example built_session_example :
-  let a1 := run_chain gen_machine "login" [AStr (bs "u"); AStr (bs "p""\")] [] in
-  let a2 := run_chain gen_machine "uid_fetch" []
+  let a1 := run_chain ref_machine "login" [AStr (bs "u"); AStr (bs "p""\")] [] in
+  let a2 := run_chain ref_machine "uid_fetch" []
               [("range", [ARange 2 4]); ("num", [ANum 7]); ("attr", [AKw "Attribute::Flags"]); ("attr", [AKw "Attribute::Uid"]);
                ("changed_since", [ANum 9])] in
   exists x1 n1 x2 n2, a1 = Some (x1, n1) /\ a2 = Some (x2, n2) /\
